@@ -79,7 +79,22 @@ fn malformed_first(rng: &mut Rng, ctype: u8) -> Vec<u8> {
                 v.extend(b);
                 v
             }
-            4 => vec![0x04, 0, 0, 3, 1, 2, 3], // NewSessionTicket shorter than 4 bytes
+            4 => {
+                if rng.chance(1, 2) {
+                    vec![0x04, 0, 0, 3, 1, 2, 3] // NewSessionTicket shorter than 4 bytes
+                } else {
+                    // ServerHello with session-id length 33 (RFC 5246: opaque SessionID<0..32>)
+                    let mut b = vec![3, 3];
+                    b.extend(rng.bytes(32));
+                    b.push(33);
+                    b.extend(rng.bytes(33));
+                    b.extend_from_slice(&[0xc0, 0x2f, 0]);
+                    let mut v = vec![2];
+                    enc::put_u24(&mut v, b.len() as u64);
+                    v.extend(b);
+                    v
+                }
+            }
             _ => vec![0x10, 0, 1, 0, 1, 2, 3],                                            // ClientKeyExchange cut short
         },
         24 => match rng.below(3) {
@@ -286,8 +301,9 @@ pub fn generate(rng: &mut Rng, prop: Prop) -> Scenario {
     // many-small: a long run of tiny records (the many-parsers' loop must not stop early or late)
     let many_small = !big && matches!(prop, Prop::C16 | Prop::C02 | Prop::C01) && rng.chance(1, 12);
     if many_small {
-        let n = match rng.below(4) {
-            0 => *rng.pick(&[15usize, 16, 17, 31, 32, 33, 63, 64, 65, 127, 128, 129, 255, 256, 257]),
+        let n = match rng.below(8) {
+            0 | 1 => *rng.pick(&[15usize, 16, 17, 31, 32, 33, 63, 64, 65, 127, 128, 129, 255, 256, 257]),
+            2 => *rng.pick(&[1023usize, 1024, 1025, 2048, 3000, 4097]),
             _ => rng.urange(11, 300),
         };
         for _ in 0..n {
@@ -1219,7 +1235,8 @@ fn locality(ctx: &mut Ctx, stream: &[u8], head: usize, buf: &[u8], used: usize, 
             continue;
         }
         if let Some(p) = call_plain(ctx, "parse_tls_plaintext", b, false) {
-            if p.fr.out != plain.fr.out {
+            let same_outcome = p.fr.out == plain.fr.out || (p.fr.out.is_rejection() && plain.fr.out.is_rejection());
+            if !same_outcome {
                 ctx.violate(Prop::C06, "locality/class-changed", || format!("parse_tls_plaintext: {} with {} bytes buffered, {} on the {} input of {} bytes (record extent {})", plain.fr.out.show(), buf.len(), p.fr.out.show(), name, b.len(), used));
             } else if p.msgs != plain.msgs || (p.fr.ctype, p.fr.ver, p.fr.len) != (plain.fr.ctype, plain.fr.ver, plain.fr.len) {
                 ctx.violate(Prop::C06, "locality/value-changed", || format!("parse_tls_plaintext: parsed value differs between {} bytes buffered and the {} input of {} bytes", buf.len(), name, b.len()));
